@@ -338,6 +338,61 @@ def history_case(c, rng):
     return out
 
 
+def shifted_fn(a, b, n=3):
+    """Returns labelled data itself; its internal coordinate `x` depends on the swept argument a."""
+    import xarray as xr
+    x = [10 * a + i for i in range(n)]
+    return xr.Dataset({"u": (("x",), np.array([100.0 * a + 10 * b + i for i in range(n)])),
+                       "w": ((), float(a - b))}, coords={"x": x})
+
+
+def shifted_coord_stream(c, n):
+    """Functions that return a Dataset / DataArray whose INTERNAL coordinate depends on a swept argument (same
+    length for every setting): the results are outer-aligned, so selecting a setting and one of ITS x labels
+    gives the number the function returned there, and the other settings' labels are missing for it."""
+    import xyzpy
+    for k in range(n):
+        rng = c.rng
+        avals = sorted(rng.sample(range(1, 6), rng.randint(2, 3)))
+        bvals = sorted(rng.sample(range(0, 4), rng.randint(1, 2)))
+        api = rng.choice(["combo_runner_to_ds", "case_runner_to_ds", "Runner.run_combos", "label.run_cases"])
+        shuffle = rng.choice([False, False, True, 7])
+        rep = {"stream": "internal-coordinate-depends-on-argument", "api": api, "a": avals, "b": bvals, "shuffle": shuffle}
+        try:
+            if api == "combo_runner_to_ds":
+                ds = xyzpy.combo_runner_to_ds(shifted_fn, {"a": avals, "b": bvals}, None, shuffle=shuffle, verbosity=0)
+            elif api == "case_runner_to_ds":
+                ds = xyzpy.case_runner_to_ds(shifted_fn, ("a", "b"), [(a, b) for a in avals for b in bvals], None,
+                                             shuffle=shuffle, verbosity=0)
+            elif api == "Runner.run_combos":
+                ds = xyzpy.Runner(shifted_fn, None).run_combos({"a": avals, "b": bvals}, shuffle=shuffle, verbosity=0)
+            else:
+                ds = xyzpy.label(None, fn_args=("a", "b"))(shifted_fn).run_cases(
+                    [(a, b) for a in avals for b in bvals], shuffle=shuffle, verbosity=0)
+        except Exception as e:  # noqa
+            c.violation("raised", f"{type(e).__name__}: {str(e)[:160]}", rep)
+            continue
+        c.case(json.dumps(rep, sort_keys=True), nontrivial=True, sample=rep if k % 10 == 0 else None)
+        c.count("api", "shifted/" + api)
+        bad = None
+        for a in avals:
+            for b in bvals:
+                sub = ds.sel(a=a, b=b)
+                own = [10 * a + i for i in range(3)]
+                for i, x in enumerate(own):
+                    if x not in ds["x"].values or float(sub["u"].sel(x=x)) != 100.0 * a + 10 * b + i:
+                        bad = (f"u.sel(a={a}, b={b}, x={x}) = "
+                               f"{float(sub['u'].sel(x=x)) if x in ds['x'].values else 'no such label'}, the function "
+                               f"returned {100.0 * a + 10 * b + i} there")
+                for x in ds["x"].values:
+                    if int(x) not in own and not np.isnan(float(sub["u"].sel(x=x))):
+                        bad = f"u.sel(a={a}, b={b}, x={int(x)}) holds {float(sub['u'].sel(x=x))} but the function never returned that label for this setting"
+                if float(sub["w"]) != float(a - b):
+                    bad = f"w.sel(a={a}, b={b}) = {float(sub['w'])}"
+        if bad:
+            c.violation("ds-sel-wrong-value", bad, rep)
+
+
 def oracle(desc, obs, sw, constants_full):
     """The property statement on the real output (independent of the Coq model)."""
     bad = []
@@ -479,6 +534,7 @@ def run(tier, seed):
                 if model is not None and "canon" in obs and not fails:
                     pairs.append((model, obs["canon"]))
                     metas.append(desc)
+        shifted_coord_stream(c, 12 if tier == "quick" and not c.broken else 80)
         bad, _ = core.safe_run_cases(c, "Prelude Grid Perm Runner RunnerInst Flow Label LabelInst", pairs, chunk=120)
         for i in bad:
             c.obligation_broken("correspondence Model/Label.v vs results_to_ds / results_to_df",
